@@ -439,7 +439,13 @@ class Conv:
         if k == "CallExpr":
             callee = self._callee(n["inner"][0])
             if callee is None:
-                raise Unsupported("indirect call")
+                # a call through a function pointer: kept as an explicit node (no evaluator: a unit that reaches it is
+                # untranslatable) so that syntactic checks can still see which pointer is called on which arguments
+                try:
+                    fexpr = self.expr0(n["inner"][0])
+                except Unsupported:
+                    raise Unsupported("indirect call")
+                return ["icall", fexpr, [self.expr(x) for x in n["inner"][1:]], ty]
             return ["call", callee[0], [self.expr(x) for x in n["inner"][1:]], ty]
         if k == "CXXDefaultArgExpr":
             inner = [x for x in n.get("inner", []) if x.get("kind")]
